@@ -70,8 +70,11 @@ SendReq ==   \* a request record (all items are requests issued by one operation
          /\ Imp("C04", LET o == OpOfTag(its[1].tag) IN
                        /\ Len(its) = Len(ops[o].specs)
                        /\ \A i \in 1..Len(its) : its[i].tag = ops[o].specs[i].tag /\ ((its[i].id = "") <=> ops[o].specs[i].note))
-         \* replies that arrived for an id before a request with that id was sent answer nothing
-         /\ got' = [x \in DOMAIN got \ {its[i].id : i \in withId} |-> got[x]]
+         \* replies the channel handed over for an id before a request with that id was transmitted: the
+         \* reader delivers them either before the request is registered (dropped as unmatched) or after
+         \* (matched) - Send and the registration are one critical section, delivery is another - so they
+         \* may justify a result but oblige nothing
+         /\ got' = [x \in DOMAIN got |-> IF x \in {its[i].id : i \in withId} THEN {[q EXCEPT !.pre = TRUE] : q \in got[x]} ELSE got[x]]
          /\ Ev.ok => /\ idof' = [x \in DOMAIN idof \cup {its[i].id : i \in withId} |->
                                  IF x \in DOMAIN idof THEN idof[x]
                                  ELSE LET i == CHOOSE j \in withId : its[j].id = x IN [op |-> OpOfTag(its[i].tag), tag |-> its[i].tag]]
@@ -100,8 +103,8 @@ Recv ==
   /\ LET its == Ev.items
          rep == {i \in 1..Len(its) : its[i].t \in {"reply", "bad"}}
          ids == {its[i].id : i \in rep}
-         pay(i) == IF its[i].t = "bad" THEN [kind |-> "baderr", tag |-> "", code |-> 0]
-                   ELSE [kind |-> IF its[i].err THEN "error" ELSE "result", tag |-> its[i].tag, code |-> IF its[i].err THEN -7 ELSE 0]
+         pay(i) == IF its[i].t = "bad" THEN [kind |-> "baderr", tag |-> "", code |-> 0, pre |-> FALSE]
+                   ELSE [kind |-> IF its[i].err THEN "error" ELSE "result", tag |-> its[i].tag, code |-> IF its[i].err THEN -7 ELSE 0, pre |-> FALSE]
      IN  got' = [x \in DOMAIN got \cup ids |->
                    (IF x \in DOMAIN got THEN got[x] ELSE {}) \cup {pay(i) : i \in {j \in rep : its[j].id = x}}]
   /\ UNCHANGED <<ops, idof, live, idres, stopped, pend, causes, sendBad, oncancel, onstop, cbrun, closeOpen, closeDone, rdDone>>
@@ -134,7 +137,7 @@ SendFailArmed == /\ IsEvent("SendFailArmed") /\ sendBad' = TRUE
 CallIds(o) == {x \in DOMAIN idof : idof[x].op = o}
 \* result r is a reply the peer sent for id x
 IsPeerReply(r, x) ==
-  x \in DOMAIN got /\ \/ [kind |-> r.kind, tag |-> r.tag, code |-> r.code] \in got[x]
+  x \in DOMAIN got /\ \/ \E q \in got[x] : q.kind = r.kind /\ q.tag = r.tag /\ q.code = r.code
                       \/ (r.kind = "error" /\ r.code \in {-32600, -32700} /\ \E p \in got[x] : p.kind = "baderr")
 CtxCode(o) == IF ops[o].ctxkind = "deadline" THEN -32096 ELSE -32097
 
@@ -207,7 +210,7 @@ CbExit == /\ IsEvent("CbExit") /\ cbrun' = cbrun \ {Ev.id}
 (***************************************************************************)
 HasCause(o) ==   \* something has happened that obliges the operation to return
   \/ ops[o].ctxend \/ stopped
-  \/ (CallIds(o) # {} /\ \A x \in CallIds(o) : x \in DOMAIN got /\ got[x] # {})
+  \/ (CallIds(o) # {} /\ \A x \in CallIds(o) : x \in DOMAIN got /\ \E q \in got[x] : ~q.pre)
 
 Quiescent ==
   /\ IsEvent("Quiescent")
